@@ -2913,11 +2913,25 @@ impl Compiler {
         // Free temporary registers
         self.builder.free_register(existing_reg);
 
-        // Push a new scope for the namespace body
-        self.emit_push_scope();
+        // Push a new scope for the namespace body. Names that are not bound in it resolve to the
+        // properties of the namespace object: exported variables live only there (so that
+        // assignments are seen through N.x and by later blocks of the same namespace)
+        self.emit_push_namespace_scope(ns_obj);
 
         // Compile the namespace body statements
         for stmt in decl.body.iter() {
+            if let Statement::Export(export) = stmt
+                && !export.type_only
+                && let Some(Statement::VariableDeclaration(var_decl)) = export.declaration.as_deref()
+                && var_decl
+                    .declarations
+                    .iter()
+                    .all(|d| matches!(d.id, crate::ast::Pattern::Identifier(_)))
+            {
+                self.compile_namespace_exported_variables(ns_obj, var_decl)?;
+                continue;
+            }
+
             self.compile_statement_impl(stmt)?;
 
             // If the statement exports something, add it to the namespace object
@@ -2933,6 +2947,38 @@ impl Compiler {
         self.emit_pop_scope();
 
         self.builder.free_register(ns_obj);
+        Ok(())
+    }
+
+    /// `export const/let/var x = init` in a namespace body: the variable is a property of the
+    /// namespace object (N.x = init in the emitted JavaScript), not a local binding
+    fn compile_namespace_exported_variables(
+        &mut self,
+        ns_obj: super::Register,
+        var_decl: &crate::ast::VariableDeclaration,
+    ) -> Result<(), JsError> {
+        self.builder.set_span(var_decl.span);
+        for declarator in var_decl.declarations.iter() {
+            if let crate::ast::Pattern::Identifier(id) = &declarator.id {
+                let value_reg = self.builder.alloc_register()?;
+                if let Some(init) = &declarator.init {
+                    self.compile_expression_with_inferred_name(
+                        init,
+                        value_reg,
+                        Some(id.name.cheap_clone()),
+                    )?;
+                } else {
+                    self.builder.emit(Op::LoadUndefined { dst: value_reg });
+                }
+                let name_idx = self.builder.add_string(id.name.cheap_clone())?;
+                self.builder.emit(Op::SetPropertyConst {
+                    obj: ns_obj,
+                    key: name_idx,
+                    value: value_reg,
+                });
+                self.builder.free_register(value_reg);
+            }
+        }
         Ok(())
     }
 
